@@ -1,11 +1,8 @@
 import ast
 import keyword
 import re
-from collections.abc import MutableMapping
+from collections.abc import Collection, MutableMapping
 from typing import Union
-
-import numpy
-
 
 # Expression formatting
 
@@ -51,13 +48,25 @@ def sanitize_variable_names(
     """
 
     sanitized_expr = []
+    expr_parts = UNQUOTED_BACKTICK_MATCHER.split(expr)
+
+    # Identifiers that the expression itself uses are not available as aliases
+    # (`x y` must not capture a genuine `x_y`, whether or not it is in `env`).
+    reserved = {
+        identifier
+        for expr_part in expr_parts
+        if expr_part and expr_part[0] not in "`'\""
+        for identifier in re.findall(r"[^\W\d]\w*", expr_part)
+    }
 
     # Back-tick quoted names are matched whole (they may contain quote
     # characters); a lone back-tick (never closed) is passed through.
-    for expr_part in UNQUOTED_BACKTICK_MATCHER.split(expr):
+    for expr_part in expr_parts:
         if len(expr_part) >= 2 and expr_part[0] == "`" and expr_part[-1] == "`":
             variable_name = expr_part[1:-1]
-            new_name = sanitize_variable_name(variable_name, env, template=template)
+            new_name = sanitize_variable_name(
+                variable_name, env, template=template, reserved=reserved
+            )
             aliases[new_name] = variable_name
             sanitized_expr.append(f" {new_name} ")
         else:
@@ -67,7 +76,11 @@ def sanitize_variable_names(
 
 
 def sanitize_variable_name(
-    name: str, env: MutableMapping, *, template: str = "{}"
+    name: str,
+    env: MutableMapping,
+    *,
+    template: str = "{}",
+    reserved: Collection[str] = (),
 ) -> str:
     """
     Generate a valid Python variable name for variable identifier `name`.
@@ -79,6 +92,8 @@ def sanitize_variable_name(
             created for the same value for the new variable name.
         template: A template to use for sanitized names, which is mainly useful
             if you need to undo the sanitization by string replacement.
+        reserved: Names that must not be generated (in addition to those
+            already present in `env`).
     """
     if name.isidentifier() and not keyword.iskeyword(name):
         return name
@@ -90,14 +105,14 @@ def sanitize_variable_name(
     if keyword.iskeyword(base_name):
         base_name += "_"
 
-    # Verify new name is not in env already, and if not add a random suffix.
+    # Verify new name is not in use already, and if it is add a (deterministic)
+    # suffix: the name ends up in the keys under which transform state is
+    # recorded, which must be the same from one build to the next.
     new_name = template.format(base_name)
-    while new_name in env:
-        new_name = template.format(
-            base_name
-            + "_"
-            + "".join(numpy.random.choice(list("abcefghiklmnopqrstuvwxyz"), 10))
-        )
+    suffix = 0
+    while new_name in env or new_name in reserved:
+        suffix += 1
+        new_name = template.format(f"{base_name}_{suffix}")
 
     # Reuse the value for `name` for `new_name` also.
     if name in env:
